@@ -58,6 +58,11 @@ func c08Store(c *Ctx) {
 						acted = true
 						// a rewrite needs an existing entry: writing back the zero value of a missing one
 						// resurrects a deleted token with a nil requester
+						// ... and the rewrite is the deactivation: the value stored has active=false at the
+						// moment it is stored (a flag cleared after the copy was written back is lost)
+						if m.sink == "mapupdate" && len(e.Args) > 2 && activeOf(p, e.Args[2], e) != "false" {
+							ok, w, why = false, p, m.table+"["+m.index+"[id]] is rewritten with a record whose active flag is not false at that moment"
+						}
 						if m.sink == "mapupdate" && !p.HoldsAt(e, atomB(call("haskey", field(recv, m.table), want)), true) {
 							ok, w, why = false, p, m.table+"["+m.index+"[id]] is written although the entry is not known to exist (a deleted token would be resurrected as a zero record)"
 						}
